@@ -52,6 +52,29 @@ type c14Srv struct {
 	nclient  int
 	stuck    int // packets the server never finished with (each costs a watchdog period)
 	policy   func(pkt []byte) int // reference accept policy of this server (default: c14Policy)
+	// invalidVia, if set, is where invalid-message reports of this server arrive (the package-level
+	// default callback, replaced by the harness) instead of the server's own field
+	invalidVia *atomic.Int32
+}
+
+// the package-level defaults as a program may replace them before it starts its servers: the invalid-message
+// callback counts into whatever c14GlobalInvalid points at, the accept policy goes through a wrapper
+var (
+	c14GlobalInvalid    atomic.Pointer[atomic.Int32]
+	c14DefaultAcceptHit atomic.Int64
+)
+
+func init() {
+	dns.DefaultMsgInvalidFunc = func(m []byte, err error) {
+		if p := c14GlobalInvalid.Load(); p != nil {
+			p.Add(1)
+		}
+	}
+	orig := dns.DefaultMsgAcceptFunc
+	dns.DefaultMsgAcceptFunc = func(dh dns.Header) dns.MsgAcceptAction {
+		c14DefaultAcceptHit.Add(1)
+		return orig(dh)
+	}
 }
 
 func newC14Srv(w *core.W, kind string, seed uint64, conf ...func(*dns.Server)) *c14Srv {
@@ -105,7 +128,11 @@ func (s *c14Srv) stop() {
 // deliver hands one packet to the server and waits until it has been dealt with; it returns
 // what was observed: handler calls, invalid-callback calls, replies.
 func (s *c14Srv) deliver(pkt []byte) (handled, invalid int, replies [][]byte, ok bool) {
-	h0, i0 := s.handled.Load(), s.invalid.Load()
+	inv := &s.invalid
+	if s.invalidVia != nil {
+		inv = s.invalidVia
+	}
+	h0, i0 := s.handled.Load(), inv.Load()
 	x0 := s.ctl.Hits()["serveDNS.exit"]
 	var cl *netsim.Stream
 	addr := netsim.Addr(fmt.Sprintf("c%d", s.nclient))
@@ -156,7 +183,7 @@ func (s *c14Srv) deliver(pkt []byte) (handled, invalid int, replies [][]byte, ok
 	for {
 		done := s.ctl.Hits()["serveDNS.exit"] > x0
 		if s.kind == "udp" && len(pkt) < 12 {
-			done = s.invalid.Load() > i0 // short datagrams never reach serveDNS
+			done = inv.Load() > i0 // short datagrams never reach serveDNS
 		}
 		if done {
 			break
@@ -180,7 +207,7 @@ func (s *c14Srv) deliver(pkt []byte) (handled, invalid int, replies [][]byte, ok
 			raw = raw[2+l:]
 		}
 	}
-	return int(s.handled.Load() - h0), int(s.invalid.Load() - i0), replies, true
+	return int(s.handled.Load() - h0), int(inv.Load() - i0), replies, true
 }
 
 // c14Judge applies the admission rules to one observed packet.
@@ -301,9 +328,22 @@ func c14Admission(w *core.W, j int) {
 		})
 		w.Count("custom_policy_servers", 1)
 	}
+	// every third server leaves its callbacks unset: the package-level defaults apply, and the program has
+	// replaced them (DefaultMsgInvalidFunc by a counter, DefaultMsgAcceptFunc by a wrapper of the original)
+	viaDefaults := j%3 == 2 && !custom
+	var globalInvalid atomic.Int32
+	if viaDefaults {
+		c14GlobalInvalid.Store(&globalInvalid)
+		defer c14GlobalInvalid.Store(nil)
+		conf = append(conf, func(srv *dns.Server) { srv.MsgInvalidFunc, srv.MsgAcceptFunc = nil, nil })
+		w.Count("servers_on_package_level_default_callbacks", 1)
+	}
 	s := newC14Srv(w, kind, uint64(w.Seed)+uint64(j), conf...)
 	if s == nil {
 		return
+	}
+	if viaDefaults {
+		s.invalidVia = &globalInvalid
 	}
 	if custom {
 		s.policy = func(pkt []byte) int { return int(binary.BigEndian.Uint16(pkt) % 4) } // same numbering as c14Policy: 0 accept, 1 FORMERR, 2 ignore, 3 NOTIMP
